@@ -60,6 +60,8 @@ def run(ctx):
     from .. import wrappers
     wrappers.transient_errors(ctx, rep, roles, "C19", "R19.6")
     r19_7(ctx, rep)
+    r19_8(ctx, rep, roles, meths)
+    r19_9(ctx, rep, roles, meths)
 
 
 def call_names(row):
@@ -379,3 +381,84 @@ def r19_7(ctx, rep):
                    sample="UdpSocket::send serialises the message (%d call)" % found)
     rep.count("persistent-scratch-buffers", n)
     rep.instance(n + found)
+
+
+def r19_8(ctx, rep, roles, meths):
+    r = rep.rule("R19.8", "a gossip round always completes: own heartbeat and tombstone GC before the sends, every selected target "
+                          "attempted whatever the earlier sends returned, liveness evaluation after the sends — on every returning path")
+    fx = ctx.fx
+    co = coroutine_of(fx, meths["gossip_multiple"]["id"])
+    eng, rows = table(fx, co["id"])
+    hb, gc, ev = roles.update_self_heartbeat["id"], roles.chitchat_gc_keys["id"], roles.update_nodes_liveness["id"]
+    gossip = meths["gossip"]["id"]
+    rets = [x for x in rows if x.exit == "return"]
+    backs = [x for x in rows if x.exit == "backedge"]
+    others = [x for x in rows if x.exit not in ("return", "backedge")]
+    rep.obligation(not others, "C19/R19.8/other-exit", "gossip_multiple has %d paths that neither return nor loop (%s)" % (len(others), sorted({x.exit for x in others})),
+                   where(co), sample="no aborting path in a gossip round")
+    n = 0
+    for row in rets:
+        n += 1
+        names = [e[1] for e in row.calls()]
+        idx = {k: [i for i, x in enumerate(names) if x == k] for k in (hb, gc, ev, gossip)}
+        once = all(len(idx[k]) == 1 for k in (hb, gc, ev))
+        order = once and all(idx[hb][0] < g and idx[gc][0] < g for g in idx[gossip]) and all(g < idx[ev][0] for g in idx[gossip])
+        rep.obligation(once and order, "C19/R19.8/round-incomplete", "a returning path of the round calls heartbeat x%d, gc x%d, liveness x%d (order ok=%s)" % (
+            len(idx[hb]), len(idx[gc]), len(idx[ev]), order), where(co, row.site[1]), sample="heartbeat, gc < sends < update_nodes_liveness, once each")
+        # the loop over the selected targets ran to exhaustion; each optional target (dead / seed) that was picked is attempted
+        exhausted = any(c[0] == "variant" and c[1][0] == "call" and c[1][1].endswith("Iterator>::next") and c[2] == "None" and c[3] for c in row.cond)
+        picked = [c for c in row.cond if c[0] == "variant" and c[3] and c[2] == "Some" and any(
+            s[0] == "call" and s[1].endswith("select_nodes_for_gossip") for s in T.subterms(c[1]))]
+        rep.obligation(exhausted and len(idx[gossip]) == len(picked), "C19/R19.8/target-skipped",
+                       "a returning path leaves the target loop early or attempts %d of %d picked optional targets" % (len(idx[gossip]), len(picked)),
+                       where(co, row.site[1]), sample="loop exhausted; every picked dead / seed target attempted")
+    nb = 0
+    for row in backs:
+        g = [e for e in row.calls() if e[1] == gossip]
+        in_target_loop = any(c[0] == "variant" and c[1][0] == "call" and c[1][1].endswith("Iterator>::next") and c[2] == "Some" and c[3] for c in row.cond)
+        if in_target_loop:
+            nb += 1
+            rep.obligation(len(g) == 1, "C19/R19.8/target-loop", "a target-loop iteration makes %d gossip calls" % len(g), where(co, row.site[1]),
+                           sample="one attempt per selected target, then next target whatever the result")
+    rep.floor("returning-paths", n, 4)
+    rep.floor("target-loop-paths", nb, 2)
+    rep.instance(n + nb)
+
+
+def r19_9(ctx, rep, roles, meths):
+    r = rep.rule("R19.9", "answering: handle_message sends exactly the reply process_message produced, to the datagram's source, iff there "
+                          "is one; gossip sends exactly the SYN it created, to the chosen address")
+    fx = ctx.fx
+    pm, syn = roles.process_message["id"], roles.create_syn["id"]
+    n = 0
+    for meth, producer, dest, optional in (("handle_message", pm, "arg1.from_addr", True), ("gossip", syn, "arg1.addr", False)):
+        co = coroutine_of(fx, meths[meth]["id"])
+        eng, rows = table(fx, co["id"])
+        for row in rows:
+            if row.exit != "return":
+                continue
+            n += 1
+            prod = [e for e in row.calls() if e[1] == producer]
+            sends = [e for e in row.calls() if e[1].endswith("Socket::send")]
+            some = None
+            for c in row.cond:
+                if c[0] == "variant" and c[1][0] == "call" and c[1][1] == producer and c[3]:
+                    some = c[2] == "Some"
+            want = 1 if (not optional or some) else 0
+            ok = len(prod) == 1 and len(sends) == want and (some is not None or not optional)
+            detail = "%d producer calls, %d sends (reply present=%s)" % (len(prod), len(sends), some)
+            if ok and sends:
+                a = [T.resolve_locals(eng, row.store, x) for x in sends[0][2]]
+                to, msg = sym.fmt(a[1]), a[2]
+                payload = msg
+                if optional:   # Some(reply) unwrapped
+                    while payload[0] == "proj":
+                        payload = payload[1]
+                ok = to == dest and payload[0] == "call" and payload[1] == producer and "transport" in sym.fmt(a[0])
+                detail = "send(to=%s, msg=%s)" % (to, sym.fmt(msg)[:60])
+            if ok and meth == "handle_message":
+                ok = sym.fmt(T.resolve_locals(eng, row.store, prod[0][2][1])) == "arg1.message"
+            rep.obligation(ok, "C19/R19.9/%s" % meth, "%s: %s" % (meth, detail), where(co, row.site[1]),
+                           sample="%s: one %s; %s" % (meth, producer.split("::")[-1], "reply sent to the source iff Some" if optional else "SYN sent to the chosen address"))
+    rep.floor("returning-paths", n, 5)
+    rep.instance(n)
